@@ -31,10 +31,15 @@ contract(ENTRYPOINTS, 'Entrypoints.unload', 'C04', types={'self': 'Entrypoints',
 	ensures=[f'module_path not in {EP}', U(f'implies(k != module_path, (k in {EP}) == (k in old({EP})))', k='str'), U(f'implies(k in {EP}, {EP}[k] == old({EP})[k])', k='str')])
 
 MD = 'self.__modules'
-contract(MODULES, 'Modules.unload', 'C04', types={'self': 'Modules', 'module': 'ModuleObj', 'return': 'None'},
+contract(MODULES, 'Modules.unload', 'C04', types={'self': 'Modules', 'module': 'ModuleObj', 'return': 'None', 'dependant_path': 'str', 'dependant_paths': 'list[str]'},
+	rewrites={'self.__dependant_paths(module_path)': 'dependants(self.__modules, module_path)'},
 	stmt_rewrites={'self.__loader.unload(module.module_path)': 'mod_unload(self.__loader, module)'},
 	modifies=[MD],
-	ensures=[f'module_path not in {MD}', U(f'implies(k != module_path, (k in {MD}) == (k in old({MD})))', k='str'), U(f'implies(k in {MD}, {MD}[k] == old({MD})[k])', k='str')])
+	ensures=[f'module_path not in {MD}',
+		# unloading only removes: every module that stays is the object it was (dependants of the unloaded module are removed with it)
+		U(f'implies(k in {MD}, k in old({MD}) and {MD}[k] == old({MD})[k])', k='str'),
+		f'implies(module_path not in old({MD}), {MD} == old({MD}))'],
+	loops={0: Loop(invariant=['0 <= _i', '_i <= len(_seq)', f'module_path not in {MD}', U(f'implies(k in {MD}, k in old({MD}) and {MD}[k] == old({MD})[k])', k='str'), 'self.__loader == old(self.__loader)', 'self.__library_paths == old(self.__library_paths)', 'self.__module_paths == old(self.__module_paths)'])})
 
 KEPT = U(f'implies(k in old({MD}), k in {MD} and {MD}[k] == old({MD})[k])', k='str')
 contract(MODULES, 'Modules.load', 'C04', types={'self': 'Modules', 'return': 'ModuleObj'},
